@@ -753,6 +753,68 @@ def r15_closure_patterns(text, notes):
     return text
 
 
+def r16_for_each(text, notes):
+    """R16: statement `E.for_each(|P| BODY);` -> `for P in E { BODY }` (std semantics of Iterator::for_each; refused when
+    BODY contains `return`, which would change meaning). Innermost-last order so that nested for_each are all rewritten."""
+    while True:
+        mask = mask_text(text)
+        hit = None
+        for m in re.finditer(r'\.\s*for_each\s*\(\s*\|', mask):
+            par = mask.find('(', m.start())
+            close = match_close(mask, par)
+            bar1 = m.end() - 1
+            # closing bar of the parameter list
+            j = bar1 + 1
+            depth = 0
+            while j < close:
+                if mask[j] in OPEN:
+                    depth += 1
+                elif mask[j] in CLOSE:
+                    depth -= 1
+                elif mask[j] == '|' and depth == 0:
+                    break
+                j += 1
+            bar2 = j
+            bs = _next_sig(mask, bar2 + 1)
+            if mask[bs] != '{':
+                continue
+            be = match_close(mask, bs)
+            if _next_sig(mask, be + 1) != close:
+                continue
+            if re.search(r'\breturn\b', mask[bs:be]):
+                notes.add('R16', 'for_each with `return` in its closure left as is')
+                continue
+            after = _next_sig(mask, close + 1)
+            rs = _receiver_start(mask, m.start())
+            # must be an expression statement: preceded by `;`, `{` or `}` and followed by `;` or `}` (tail)
+            pv = _prev_sig(mask, rs)
+            if pv >= 0 and mask[pv] not in ';{}':
+                continue
+            hit = (rs, m.start(), bar1, bar2, bs, be, close, after)
+            break
+        if not hit:
+            return text
+        rs, dot, bar1, bar2, bs, be, close, after = hit
+        recv = text[rs:dot].rstrip()
+        pat = text[bar1 + 1:bar2].strip()
+        body = text[bs:be + 1]
+        end = close + 1
+        if after < len(mask) and mask[after] == ';':
+            end = after + 1
+        text = text[:rs] + 'for %s in %s %s' % (pat, recv, body) + text[end:]
+        notes.add('R16', '`..for_each(|%s| {..})` rewritten as a for loop' % pat)
+
+
+def r17_byte_conv(text, notes):
+    """R17: integer <-> byte-array conversions are renamed to extension-trait methods that carry a spec
+    (vstd gives none and their const-generic return type cannot be specified from outside):
+    `E.to_be_bytes()` -> `E.vf_to_be_bytes()`, same for to_le_bytes"""
+    new = re.sub(r'\.\s*to_(be|le)_bytes\s*\(\s*\)', lambda m: '.vf_to_%s_bytes()' % m.group(1), text)
+    if new != text:
+        notes.add('R17', 'to_be_bytes/to_le_bytes renamed to the spec-carrying extension methods')
+    return new
+
+
 def eta_expand_paths(text, notes):
     """R6 (part): a function path used as a closure is eta-expanded: `.map(ToOwned::to_owned)` -> `.map(|x| { x.to_owned() })`,
     `.map(Pack::pack)` -> `.map(|x| { Pack::pack(x) })`"""
@@ -789,9 +851,13 @@ def apply_rules(text, rules, notes, extra_log_macros=()):
             text = r6_windows_for(text, notes)
         elif r == 'R6e':
             text = eta_expand_paths(text, notes)
+        elif r == 'R16':
+            text = r16_for_each(text, notes)
+        elif r == 'R17':
+            text = r17_byte_conv(text, notes)
         else:
             raise ExtractError('unknown rule ' + r)
     return text
 
 
-DEFAULT_RULES = ['R1', 'R2', 'R7', 'R8', 'R3', 'R4', 'R10', 'R6w', 'R6t', 'R6e', 'R15']
+DEFAULT_RULES = ['R1', 'R2', 'R7', 'R8', 'R3', 'R4', 'R16', 'R17', 'R10', 'R6w', 'R6t', 'R6e', 'R15']
